@@ -42,7 +42,7 @@ DEFAULT_FILES = ["src/enforcer.rs", "src/effector.rs", "src/internal_api.rs", "s
 
 OPS = [
     (r"==", "!="), (r"!=", "=="), (r"&&", "||"), (r"\|\|", "&&"),
-    (r"<=", "<"), (r">=", ">"), (r"(?<![<\-=>])<(?![<=])", "<="), (r"(?<![\-=>])>(?![>=])", ">="),
+    (r"<=", "<"), (r">=", ">"), (r"(?<= )<(?= )", "<="), (r"(?<= )>(?= )", ">="),
     (r"\+ 1\b", "+ 0"), (r"\+ 1\b", "+ 2"), (r"- 1\b", "- 0"), (r"\b0\b", "1"), (r"\b1\b", "0"), (r"\b2\b", "1"),
     (r"\btrue\b", "false"), (r"\bfalse\b", "true"),
     (r"\bcontinue\b", "break"), (r"\bbreak\b", "continue"),
